@@ -242,7 +242,7 @@ func replay(args []string) {
 		tenc = json.NewEncoder(tw)
 	}
 	id := 0
-	nvec, nmis, ntrace := 0, 0, 0
+	nvec, nmis, ntrace, nunknown := 0, 0, 0, 0
 	emit := func(id int, text string, prog []xpm.Ins, failAt int, rr RunResult) {
 		if tenc == nil {
 			return
@@ -282,11 +282,16 @@ func replay(args []string) {
 			}
 			listing := m.PrintMachine()
 			prog, _ := xpm.ParseListing(listing)
-			if !reflect.DeepEqual(prog, v.Prog) {
+			known := xpm.Recognised(prog)
+			if !known {
+				nunknown++
+			} else if !reflect.DeepEqual(prog, v.Prog) {
 				o.Mism = append(o.Mism, Mism{"prog", v.Prog, prog})
 			}
-			rr := runOnce(id, m, 0, tenc != nil)
-			emit(id, text, prog, 0, rr)
+			rr := runOnce(id, m, 0, tenc != nil && known)
+			if known {
+				emit(id, text, prog, 0, rr)
+			}
 			if rr.Panic != nil {
 				o.Mism = append(o.Mism, Mism{"panic", "none", rr.Panic})
 			}
@@ -336,8 +341,10 @@ func replay(args []string) {
 			}
 			if *faults {
 				for k := 1; k <= len(v.Calls); k++ {
-					rf := runOnce(id, m, k, tenc != nil)
-					emit(id, text, prog, k, rf)
+					rf := runOnce(id, m, k, tenc != nil && known)
+					if known {
+						emit(id, text, prog, k, rf)
+					}
 					want := fmt.Sprintf("ENVFAIL-%d", k)
 					if rf.Panic != nil {
 						o.Mism = append(o.Mism, Mism{"fault-panic", want, rf.Panic})
@@ -355,7 +362,7 @@ func replay(args []string) {
 		}
 		f.Close()
 	}
-	fmt.Fprintf(os.Stderr, "replayed %d vectors, %d with mismatches, %d traces\n", nvec, nmis, ntrace)
+	fmt.Fprintf(os.Stderr, "replayed %d vectors, %d with mismatches, %d traces, %d listings outside the instruction vocabulary\n", nvec, nmis, ntrace, nunknown)
 }
 
 // record: run expression texts (one per line) and log the instruction-level traces;
@@ -392,6 +399,12 @@ func record(args []string) {
 		id++
 		n++
 		prog, _ := xpm.ParseListing(m.PrintMachine())
+		if !xpm.Recognised(prog) {
+			id--
+			n--
+			rejected++
+			continue
+		}
 		rr := runOnce(id, m, 0, true)
 		tenc.Encode(xpm.Event{Ev: "init", ID: id, Expr: xpm.ToModel(text), Prog: prog,
 			Ds: []xpm.Val{}, Ps: []xpm.Req{}, Ks: []map[string]string{}, Calls: []xpm.Call{}, Err: "none",
